@@ -78,12 +78,13 @@ type ownCase struct {
 	Reversed  bool      // the revision recording the set's template has the lowest number (a rollback is pending)
 	PinB      bool      // pod 2 carries the label of revision slot 1
 	PinTerm   bool      // ... and is terminating
+	AllAtB    bool      // every pod carries the label of revision slot 1 (none is at the set's template)
 	API       string    // "same", "api-deleting", "cache-deleting", "other-uid", "absent"
 	Paused    bool
 }
 
 func (c ownCase) String() string {
-	return fmt.Sprintf("%s lim=%d pods=%v revs=%v equalnums=%v reversed=%v pinB=%v pinTerminating=%v api=%s paused=%v", c.Policy, c.Limit, c.Pods, c.Revs, c.EqualNums, c.Reversed, c.PinB, c.PinTerm, c.API, c.Paused)
+	return fmt.Sprintf("%s lim=%d pods=%v revs=%v equalnums=%v reversed=%v pinB=%v pinTerminating=%v allAtB=%v api=%s paused=%v", c.Policy, c.Limit, c.Pods, c.Revs, c.EqualNums, c.Reversed, c.PinB, c.PinTerm, c.AllAtB, c.API, c.Paused)
 }
 
 func podNameFor(shape string, i int) string {
@@ -169,7 +170,7 @@ func (c ownCase) Build(w *world.World) *world.State {
 		}
 		rev := names[0]
 		tmpl := 1
-		if c.PinB && i == 2 {
+		if (c.PinB && i == 2) || c.AllAtB {
 			rev, tmpl = names[1], 2
 		}
 		cell := gen.Cell{Present: true, Phase: v1.PodRunning, Ready: true, Term: pc.Term || (c.PinB && c.PinTerm && i == 2), Owner: pc.Owner, NoMatch: pc.NoMatch}
@@ -185,6 +186,10 @@ func (c ownCase) Build(w *world.World) *world.State {
 	}
 	set.Status.CurrentRevision = names[0]
 	set.Status.UpdateRevision = names[0]
+	if c.AllAtB {
+		// the pods' revision is the current one; the set's template (slot 0) is a rollback target
+		set.Status.CurrentRevision = names[1]
+	}
 	set.Status.ObservedGeneration = 1
 	// a second set with an overlapping selector lives in the same namespace
 	other := gen.Spec{Name: "other", Replicas: 1, Policy: "Parallel", Strategy: gen.RU(0), Limit: 10, Template: 1}.Build()
@@ -285,8 +290,8 @@ func ownGrid(apis []string, policies []string, paused bool, podDepth int, thorou
 			rc := ownRevCells()
 			limits := []int32{0, 1, 10}
 			for _, lim := range limits {
-				for _, pinMode := range []int{0, 1, 2} {
-					pin, pinTerm := pinMode > 0, pinMode == 2
+				for _, pinMode := range []int{0, 1, 2, 3} {
+					pin, pinTerm, allB := pinMode == 1 || pinMode == 2, pinMode == 2, pinMode == 3
 					for _, num := range []int{0, 1, 2} {
 						eq, rev := num == 1, num == 2
 						if eq && !thorough && lim != 0 {
@@ -296,7 +301,7 @@ func ownGrid(apis []string, policies []string, paused bool, podDepth int, thorou
 							for _, b := range rc {
 								for _, c3 := range rc {
 									c := base
-									c.Limit, c.PinB, c.PinTerm, c.EqualNums, c.Reversed = lim, pin, pinTerm, eq, rev
+									c.Limit, c.PinB, c.PinTerm, c.AllAtB, c.EqualNums, c.Reversed = lim, pin, pinTerm, allB, eq, rev
 									c.Revs = [3]ownRev{a, b, c3}
 									if !emit(c) {
 										return
@@ -321,7 +326,7 @@ func ownCheck(prop string, apis, policies []string, paused bool, differential bo
 	if prop == "C10" {
 		depth = 2
 	}
-	rep.Rule = fmt.Sprintf("ownership snapshot enumeration: set web (r=3, %v, RU p=0) plus a second set with the same selector; (P) pods at 3 ordinals, up to %d of them replaced by any cell of owner{this,none,other UID,other kind,non-controller ref} x labels{match,no match} x name{S-i,S-x,other-i,S-i-j} x terminating, or absent; (R) full product of three revision slots (data T1=the set's template, T2, T3) each absent or owner{this,none,other UID,other kind} x labels{selector,upgrade marker,both}, x revisionHistoryLimit{0,1,10} x pod-label pinning (none / live pod / terminating pod) x revision numbering (descending with age / all equal / reversed, i.e. a rollback pending); x API copy of the set %v; paused=%v. One real reconcile per snapshot. %s Non-trivial = at least one write or an error.", policies, depth, apis, paused, ruleText)
+	rep.Rule = fmt.Sprintf("ownership snapshot enumeration: set web (r=3, %v, RU p=0) plus a second set with the same selector; (P) pods at 3 ordinals, up to %d of them replaced by any cell of owner{this,none,other UID,other kind,non-controller ref} x labels{match,no match} x name{S-i,S-x,other-i,S-i-j} x terminating, or absent; (R) full product of three revision slots (data T1=the set's template, T2, T3) each absent or owner{this,none,other UID,other kind} x labels{selector,upgrade marker,both}, x revisionHistoryLimit{0,1,10} x pod-label pinning (none / one live pod / one terminating pod at another revision / all pods at another revision) x revision numbering (descending with age / all equal / reversed, i.e. a rollback pending); x API copy of the set %v; paused=%v. One real reconcile per snapshot. %s Non-trivial = at least one write or an error.", policies, depth, apis, paused, ruleText)
 	rep.Assumptions = apiAssumptions
 	deadline := explore.Deadline(100*time.Second, 15*time.Minute)
 	judge := monitorOf(prop)
